@@ -374,6 +374,19 @@ func genDevice(r *RNG, b *asaDev) (*asaDev, []string) {
 	a := b.clone()
 	var note []string
 	say := func(s string) { note = append(note, s) }
+	// the device never holds two routes to one destination (the target may ask for a second one)
+	{
+		seen := map[string]bool{}
+		var keep []string
+		for _, rt := range a.Routes {
+			f := strings.Fields(rt)
+			if k := f[1] + " " + f[2]; !seen[k] {
+				seen[k] = true
+				keep = append(keep, rt)
+			}
+		}
+		a.Routes = keep
+	}
 	a.Unknown = []string{"hostname fw1"}
 	if r.Chance(30) {
 		a.Unknown = append(a.Unknown, "snmp-server host inside 10.0.0.9 community x")
@@ -852,6 +865,14 @@ func run(ctx *Ctx) *Result {
 		if real != f["script"] {
 			res.Disagree(stream+": change script (drc vs model)", c, real, f["script"])
 			return splitScript(out), out, "disagree"
+		}
+		res.Count("static-hypotheses(WF,RefsClosed):" + f["wf"])
+		res.Count("end-to-end-theorem-applies(k1Check):" + f["k1"])
+		if f["k1"] == "1" {
+			// the theorem says: accepted and converged; cross-check its conclusion on this very case
+			if !strings.HasPrefix(f["exec"], "ok") {
+				res.Disagree(stream+": k1Check holds but the Lean device rejects the model script (contradicts asa_F1_converges_partial)", c, "", f["exec"])
+			}
 		}
 		if f["hits"] != "" {
 			for _, h := range strings.Split(f["hits"], ",") {
